@@ -11,11 +11,13 @@ CHECKS = {
     "C01": ("exploration", "5 C01", "differential runtime monitoring: random and coverage-guided (libFuzzer) operation histories vs std::vector model under ASan/UBSan",
             "Every public call of generated operation histories (40 configurations quick, 78 thorough: flavour x N x element category incl. raw int/double, over-aligned, 96-byte and "
             "throwing-move elements x size_type x allocator x range source (7 kinds incl. single-pass, non-contiguous random access and values of another type) x C++14/17/20) is compared step by step with std::vector; a coverage-guided stage (libFuzzer "
-            "mutating the byte string every generator decision is read from; 4 configurations x 25k inputs quick, 16 x 150k thorough) drives the same engine and monitors; one history in twelve is large-scale (lengths up to 2800, inline capacities up to 1500); "
+            "mutating the byte string every generator decision is read from; 4 configurations x 25k inputs quick, 16 x 150k thorough) drives the same engine and monitors; one history in twelve is large-scale (lengths up to 2800, inline capacities up to 1500); a defaults engine runs the library with its default template "
+            "arguments (std::less, amc::allocator / std::allocator, default size_type) over int / 64-bit extremes / double / std::string / pair elements against std::vector; "
             "exploration is the right level because the property quantifies over unbounded histories."),
     "C02": ("exploration", "5 C02", "runtime monitoring: element identity/lifetime ledger + ASan/UBSan/LSan over random and coverage-guided (libFuzzer) histories",
             "Instrumented element types record every constructor/assignment/destructor; the ledger is checked after every call and at the end of every history, in the "
-            "vector, FlatSet and SmallSet engines and in the nested-containers engine (containers as elements of containers)."),
+            "vector, FlatSet and SmallSet engines and in the nested-containers engine (containers as elements of containers); a tiny-element engine covers "
+            "non-relocatable elements of 4 and 8 bytes (address, value and life cycle in a side table), incl. SmallVectors whose inline storage is the pointer word."),
     "C05": ("exploration", "5 C05", "runtime monitoring: entitlement shadow + allocator ledger + malloc hook over random and coverage-guided (libFuzzer) histories",
             "The inline-storage promise is monitored on every call of histories steered around N (element kinds incl. potentially-throwing moves, 96-byte and over-aligned elements)."),
     "C06": ("exploration", "5 C06", "runtime monitoring: allocator ledger (pointer->count, family) + LeakSanitizer over random and coverage-guided histories, allocator-fault sweep, reallocate grid",
@@ -26,11 +28,13 @@ CHECKS = {
     "C03": ("exploration", "5 C03", "differential runtime monitoring: random FlatSet histories vs std::set model, comparator provenance, under ASan/UBSan",
             "Every call of generated histories over pools of FlatSets (comparators less/greater/coarse/stateful/transparent x underlying amc::vector/"
             "SmallVector/FixedCapacityVector/std::vector x element category) is compared with std::set built with the same comparator object; the sets of a pool get "
-            "comparator objects in different states where the type has state; heterogeneous keys equivalent to a run of several elements; the non-standard accessors (at, data, operator[]) included."),
+            "comparator objects in different states where the type has state; heterogeneous keys equivalent to a run of several elements; the non-standard accessors (at, data, operator[]) included; a defaults engine runs FlatSet with std::less / std::greater / std::less<> over "
+            "int, 64-bit extremes, double, std::string and pair keys against std::set, incl. merges between sets ordered by different standard comparators and keys of other types."),
     "C04": ("exploration", "5 C04", "runtime monitoring: complete small-scope state-space execution of the real SmallSet + random histories vs std::set model",
             "Breadth-first execution of every operation from every reachable (content,state) of SmallSets with N<=3 over 5 keys, every ordered state pair under "
             "swap/compare/merge (second operand with a comparator object in another state), and random histories for N in {4,8} incl. transparent comparators with "
-            "heterogeneous int / run keys; exhaustive inside the small scope, a sample beyond."),
+            "heterogeneous int / run keys; exhaustive inside the small scope, a sample beyond; a defaults engine runs SmallSet with the standard comparators "
+            "(std::less, std::greater, std::less<>) and ordinary key types against std::set, incl. ranges from std::set / std::multiset and keys of other types."),
     "C11": ("exploration", "5 C11", "runtime monitoring: iterator-validity oracle (fresh walk) over the complete small-scope SmallSet state space + random histories",
             "Every iterator returned by the library is classified against a fresh begin()..end() walk before being dereferenced; walks and erase loops are "
             "capped by logical step counts; a self move-assignment during an erase costs the element its value."),
@@ -54,17 +58,17 @@ CHECKS = {
             "both call directions, with follow-up scripts; impossible exchanges must throw and change nothing."),
     "C15": ("fault_enumeration", "5 C15", "fault injection + differential: every amc:: memory algorithm x length x iterator category x value category x throw index at -std=c++11/14/17/20 under ASan/UBSan",
             "The algorithm results are compared with the standard's wording and the element ledger proves clean-up after each injected constructor fault; homogeneous and "
-            "converting (destination type constructed from another source type) ranges."),
+            "converting (destination type constructed from another source type) ranges; counts given in the containers' narrow / signed / wide size types."),
     "C14": ("exploration", "5 C14", "runtime monitoring: containers relocated by memcpy at random quiescent points of monitored histories (differential re-run without relocation) + trait table vs conjunction of parts",
             "The byte-copied container continues the history under the model, ledger and sanitizer monitors; the abandoned block is poisoned and freed so that a stale "
             "self pointer is a use-after-free. A nested-containers engine lets outer amc vectors relocate inner amc containers according to their own declaration. Containers of over-aligned elements are relocated between addresses of different residue modulo the element alignment."),
     "C16": ("exploration", "5 C16", "differential runtime monitoring: byte comparison of transcripts of one generated script program across a build matrix, all under UBSan; feature probes",
-            "{c++11,14,17,20} x {extras,pedantic} x {assert,NDEBUG} x {-O0,-O2}: 8 pairwise-covering builds quick, all 32 thorough; range arguments come from seven iterator source kinds and from ranges of another integral type of the same size."),
+            "{c++11,14,17,20} x {extras,pedantic} x {assert,NDEBUG} x {-O0,-O2}: 8 pairwise-covering builds quick, all 32 thorough; range arguments come from seven iterator source kinds and from ranges of another integral type of the same size; floating point fills are printed bit by bit."),
     "C17": ("other", "5 C17", "observed-value monitor: generated probe programs print compile-time constants, judged by an independent oracle written from the statement",
             "The property is decided by the compiler; the probe merely exposes what the compiler computed for a matrix of element shapes x categories x N x size_type x "
             "standard, which the oracle (lib/c17.py) re-derives from sizes and declared attributes only."),
     "C20": ("exploration", "5 C20", "ThreadSanitizer over reader threads sharing one const container, with a positive control and measured burst overlap",
-            "25 (type, state) cases (incl. a comparator with const and non-const call operators) x {2,4,8,16} threads; no race observed on the sampled schedules - not absence of races on all schedules."),
+            "26 (type, state) cases (incl. a comparator with const and non-const call operators and copies of a 160 KB vector through the stock allocator) x {2,4,8,16} threads; no race observed on the sampled schedules - not absence of races on all schedules."),
 }
 
 NA_REASON = "check not built yet in this session (engine under construction, see DESIGN.md section 5)"
